@@ -6,11 +6,16 @@ import common
 import planar
 from common import rat, tf
 
-MODULE = 'GeoVerif.Props.C02'
+MODULE = ['GeoVerif.Props.C02', 'GeoVerif.Props.C02Box']
 THEOREMS = ['GV.C02.' + t for t in (
     'findIntersection_isSome_iff', 'findIntersection_comm', 'findIntersection_point', 'sweep_eq_anyCross',
     'sweep_symm', 'sweep_congr', 'sweep_flip', 'intersects_symm', 'relate_total', 'line_contains_iff_sublist',
-    'contains_imp_intersects', 'relate_dt_free', 'intersects_iff_spec', 'intersects_point_iff', 'contains_iff_spec')]
+    'contains_imp_intersects', 'relate_dt_free', 'intersects_iff_spec', 'intersects_point_iff', 'contains_iff_spec')] + [
+    # closed-set truth proved outright (no Jordan assumption) for every pair of axis-parallel rectangles, box or polygon form
+    'GV.C02Box.' + t for t in (
+    'box_anyCross_iff', 'box_anyCross_iff_meet', 'box_sweep_iff', 'box_intersects_spec', 'box_intersects_iff',
+    'box_intersects_iff_exists', 'box_contains_iff', 'box_contains_iff_forall', 'box_decided_by', 'box_relate_eq',
+    'box_intersects_symm', 'box_contains_imp_intersects', 'box_contains_asymm', 'rect_onEdges_iff', 'box_point_iff')]
 
 
 def _coord(p):
